@@ -87,7 +87,7 @@ class VBTranslator(object):
         if isinstance(e, ast.Name):
             if e.id not in env:
                 raise Refuse('variable %s may be undefined (line %d)' % (e.id, e.lineno))
-            return e.id, env[e.id], []
+            return env[e.id][1], env[e.id][0], []
         if isinstance(e, ast.Tuple):
             if all(isinstance(x, ast.Constant) and isinstance(x.value, int) for x in e.elts) and len(e.elts) == 2:
                 return '(%d, %d)' % (e.elts[0].value, e.elts[1].value), 'ver', []
@@ -168,10 +168,13 @@ class VBTranslator(object):
         if name in ('SignatureScheme.getHash', 'SignatureScheme.getPadding') and tys == ['ostr']:
             t = self.fresh()
             return t, 'ostr', binds + [(t, '%s %s' % (name.replace('.', '_'), codes[0]))]
-        if name == 'handshakeHashes.digest' and tys in ([], ['ostr']):
-            return '(hh_digest handshakeHashes %s)' % (codes[0] if codes else 'None'), 'bytes', binds
-        if name == 'handshakeHashes.digestSSL' and tys == ['bytes', 'bytes']:
-            return '(hh_digestSSL handshakeHashes %s %s)' % tuple(codes), 'bytes', binds
+        if isinstance(f, ast.Attribute) and isinstance(f.value, ast.Name) and f.attr in ('digest', 'digestSSL') \
+                and f.value.id in env and env[f.value.id][0] == 'bytes':
+            recv = env[f.value.id][1]            # the HandshakeHashes object (any local name bound to it)
+            if f.attr == 'digest' and tys in ([], ['ostr']):
+                return '(hh_digest %s %s)' % (recv, codes[0] if codes else 'None'), 'bytes', binds
+            if f.attr == 'digestSSL' and tys == ['bytes', 'bytes']:
+                return '(hh_digestSSL %s %s %s)' % (recv, codes[0], codes[1]), 'bytes', binds
         if name == 'calc_key':
             if tys != ['ver', 'bytes', 'Z', 'bytes'] or [k for k, _ in kws] != ['client_random', 'server_random', 'output_length']:
                 raise Refuse('calc_key call shape changed (line %d)' % e.lineno)
@@ -197,38 +200,105 @@ class VBTranslator(object):
             body = '%s <- %s ;;\n%s' % (n, c, body)
         return body
 
-    def block(self, stmts, env):
+    # -- helper static methods of KeyExchange called from calcVerifyBytes are INLINED (their locals get a
+    #    unique suffix), so extracting parts of the function into helpers does not change the model
+    def helper_of(self, call):
+        f = call.func
+        if isinstance(f, ast.Attribute) and isinstance(f.value, ast.Name) and f.value.id in ('KeyExchange', 'cls', 'self') \
+                and f.attr in self.helpers and not call.keywords:
+            return self.helpers[f.attr]
+        return None
+
+    def inline(self, call, env, k):
+        fd = self.helper_of(call)
+        if self.depth > 4:
+            raise Refuse('helper recursion')
+        params = [a.arg for a in fd.args.args]
+        if fd.args.defaults or fd.args.vararg or fd.args.kwarg or len(params) != len(call.args):
+            raise Refuse('helper %s: call shape (line %d)' % (fd.name, call.lineno))
+        args = [self.expr(a, env) for a in call.args]
+        self.inl += 1
+        suffix = '__%d' % self.inl
+        henv = {}
+        lets = ''
+        for pn, (code, ty, _) in zip(params, args):
+            henv[pn] = (ty, pn + suffix)
+            lets += 'let %s := %s in\n' % (pn + suffix, code)
+        old_suffix, self.suffix = self.suffix, suffix
+        self.depth += 1
+
+        def kk(vals, _env):
+            self.suffix = old_suffix               # the continuation is code of the CALLER
+            try:
+                return k(vals)
+            finally:
+                self.suffix = suffix
+        body = self.block(fd.body, henv, kk)
+        self.depth -= 1
+        self.suffix = old_suffix
+        return self.wrap(sum((a[2] for a in args), []), lets + body)
+
+    def bind_targets(self, target, vals, env, lineno):
+        names = [target] if isinstance(target, ast.Name) else list(target.elts) if isinstance(target, ast.Tuple) else None
+        if names is None or any(not isinstance(n, ast.Name) for n in names) or len(names) != len(vals):
+            raise Refuse('assignment form (line %d)' % lineno)
+        env2 = dict(env)
+        lets = ''
+        for n, (code, ty) in zip(names, vals):
+            if ty == 'none':
+                ty, code = 'ostr', '(@None string)'
+            cn = n.id + self.suffix
+            env2[n.id] = (ty, cn)
+            lets += 'let %s := %s in\n' % (cn, code)
+        return lets, env2
+
+    def block(self, stmts, env, k=None):
+        """k(values, env) -> code: what happens with the value(s) of a `return` (None: the function's own return)"""
         if not stmts:
             raise Refuse('control reaches end of function')
         s, rest = stmts[0], stmts[1:]
         if isinstance(s, ast.Expr) and isinstance(s.value, ast.Constant) and isinstance(s.value.value, str):
-            return self.block(rest, env)
+            return self.block(rest, env, k)
         if isinstance(s, ast.Assign):
-            if len(s.targets) != 1 or not isinstance(s.targets[0], ast.Name):
+            if len(s.targets) != 1:
                 raise Refuse('assignment form (line %d)' % s.lineno)
+            if isinstance(s.value, ast.Call) and self.helper_of(s.value) is not None:
+                def after(vals):
+                    lets, env2 = self.bind_targets(s.targets[0], vals, env, s.lineno)
+                    return lets + self.block(rest, env2, k)
+                return self.inline(s.value, env, after)
+            if isinstance(s.value, ast.Tuple) and isinstance(s.targets[0], ast.Tuple):
+                vs = [self.expr(x, env) for x in s.value.elts]
+                lets, env2 = self.bind_targets(s.targets[0], [(c, t) for c, t, _ in vs], env, s.lineno)
+                return self.wrap(sum((v[2] for v in vs), []), lets + self.block(rest, env2, k))
             code, ty, b = self.expr(s.value, env)
-            if ty == 'none':
-                ty = 'ostr'
-                code = '(@None string)'
-            env2 = dict(env)
-            env2[s.targets[0].id] = ty
-            return self.wrap(b, 'let %s := %s in\n%s' % (s.targets[0].id, code, self.block(rest, env2)))
+            lets, env2 = self.bind_targets(s.targets[0], [(code, ty)], env, s.lineno)
+            return self.wrap(b, lets + self.block(rest, env2, k))
         if isinstance(s, ast.If):
             c, b = self.test(s.test, env)
-            A = self.block(s.body + rest, env)
-            B = self.block(s.orelse + rest, env)
+            A = self.block(s.body + rest, env, k)
+            B = self.block(s.orelse + rest, env, k)
             return self.wrap(b, 'if %s then (\n%s\n) else (\n%s\n)' % (c, A, B))
         if isinstance(s, ast.Return):
+            if isinstance(s.value, ast.Call) and self.helper_of(s.value) is not None:
+                return self.inline(s.value, env, (lambda vals: k(vals, env)) if k else (lambda vals: self.ret(vals)))
+            if isinstance(s.value, ast.Tuple):
+                vs = [self.expr(x, env) for x in s.value.elts]
+                vals = [(c, t) for c, t, _ in vs]
+                return self.wrap(sum((v[2] for v in vs), []), k(vals, env) if k else self.ret(vals))
             code, ty, b = self.expr(s.value, env)
-            if ty != 'bytes':
-                raise Refuse('return type %s' % ty)
-            return self.wrap(b, 'Ok %s' % code)
+            return self.wrap(b, k([(code, ty)], env) if k else self.ret([(code, ty)]))
         if isinstance(s, ast.Raise):
             exc = s.exc.func.id if isinstance(s.exc, ast.Call) and isinstance(s.exc.func, ast.Name) else None
             if exc != 'ValueError':
                 raise Refuse('raise of %s' % exc)
             return 'Err ValueError'
         raise Refuse('statement %s (line %d)' % (type(s).__name__, s.lineno))
+
+    def ret(self, vals):
+        if len(vals) != 1 or vals[0][1] != 'bytes':
+            raise Refuse('calcVerifyBytes returns %s' % [t for _, t in vals])
+        return 'Ok %s' % vals[0][0]
 
     def tables(self):
         SS, HA = self.consts.SignatureScheme, self.consts.HashAlgorithm
@@ -279,7 +349,14 @@ class VBTranslator(object):
         defaults = [ast.unparse(d) for d in fd.args.defaults]
         if defaults != ['None', "b'client'", "'rsa'"]:
             raise Refuse('defaults of calcVerifyBytes changed: %s' % defaults)
-        body = self.block(fd.body, dict(self.PARAMS))
+        self.helpers = {}
+        for n in ast.walk(tree):
+            if isinstance(n, ast.ClassDef) and n.name == 'KeyExchange':
+                for m in n.body:
+                    if isinstance(m, ast.FunctionDef) and m.name != 'calcVerifyBytes':
+                        self.helpers[m.name] = m
+        self.inl, self.depth, self.suffix = 0, 0, ''
+        body = self.block(fd.body, {p: (t, p) for p, t in self.PARAMS})
         from pylite import indent
         out = ['(* GENERATED by translator/units_c05.py from %s -- do not edit. *)' % self.path,
                'From Coq Require Import ZArith List Bool String.',
@@ -318,7 +395,7 @@ VERIFY_CALLS = {'verifyServerKeyExchange', '_tls12_verify_SKE', '_tls12_verify_e
                 '_tls12_verify_eddsa_ske', '_tls12_verify_dsa_SKE', 'calcVerifyBytes', 'verify_binder',
                 'verify', 'hashAndVerify', 'method', 'ver_func', '_getFinished', 'checker',
                 'ct_compare_digest', '_calc_binder', 'compute_certificate_dc_sig_context'}
-COMPARE_WORDS = ('verify_data', 'sig_algs', 'sigalgs', 'verifyData', 'dc_cert_verify_algorithm')
+COMPARE_WORDS = ('verify_data', 'sig_algs', 'sigalgs', 'signature_algs', 'verifyData', 'dc_cert_verify_algorithm')
 FILES = ['tlslite/tlsconnection.py', 'tlslite/tlsrecordlayer.py', 'tlslite/keyexchange.py',
          'tlslite/x509.py', 'tlslite/handshakehelpers.py']
 # functions of keyexchange.py/x509.py that only SIGN (peer role) are not part of the table
@@ -349,14 +426,118 @@ def fail_action(stmts):
 NOISY_NAMES = {'self', 'result', 'settings', 'i', 'e', 'exc', 'alert'}
 
 
+def _pure_alias(v):
+    """an expression that only NAMES an existing value: local.attr..., x[const], tuples of those"""
+    if isinstance(v, ast.Name):
+        return v.id not in NOISY_NAMES          # `x = result` names a generator's current value, not a stable object
+    if isinstance(v, ast.Attribute):
+        return _pure_alias(v.value)
+    if isinstance(v, ast.Subscript):
+        return isinstance(v.slice, ast.Constant) and _pure_alias(v.value)
+    if isinstance(v, ast.Tuple):
+        return bool(v.elts) and all(_pure_alias(x) for x in v.elts)
+    return False
+
+
+def collect_aliases(fdef):
+    """local names bound EXACTLY ONCE in the function, by a plain assignment of a pure alias expression.
+    They are replaced by that expression in the table texts, so that introducing / removing such a local
+    (schemeID = (ske.hashAlg, ske.signAlg)) does not change the table, while a second binding of the name
+    (the rebinding of cert_entry by a loop) does."""
+    count, value = {}, {}
+    for n in ast.walk(fdef):
+        targets = []
+        if isinstance(n, ast.Assign):
+            for t in n.targets:
+                targets += list(t.elts) if isinstance(t, ast.Tuple) else [t]
+            if len(n.targets) == 1 and isinstance(n.targets[0], ast.Name) and _pure_alias(n.value):
+                value[n.targets[0].id] = n.value
+        elif isinstance(n, (ast.AugAssign, ast.AnnAssign)):
+            targets = [n.target]
+        elif isinstance(n, (ast.For, ast.comprehension)):
+            targets = list(n.target.elts) if isinstance(n.target, ast.Tuple) else [n.target]
+        elif isinstance(n, ast.ExceptHandler) and n.name:
+            count[n.name] = count.get(n.name, 0) + 1
+        elif isinstance(n, ast.withitem) and n.optional_vars is not None:
+            targets = [n.optional_vars]
+        for t in targets:
+            if isinstance(t, ast.Name):
+                count[t.id] = count.get(t.id, 0) + 1
+    params = {a.arg for a in fdef.args.args}
+    return {k: v for k, v in value.items() if count.get(k) == 1 and k not in params and k not in NOISY_NAMES}
+
+
+class _Subst(ast.NodeTransformer):
+    def __init__(self, aliases):
+        self.aliases = aliases
+        self.depth = 0
+
+    def visit_Name(self, node):
+        if isinstance(node.ctx, ast.Load) and node.id in self.aliases and self.depth < 6:
+            import copy
+            self.depth += 1
+            r = self.visit(copy.deepcopy(self.aliases[node.id]))
+            self.depth -= 1
+            return r
+        return node
+
+    def visit_Subscript(self, node):
+        node = self.generic_visit(node)
+        if isinstance(node.value, ast.Tuple) and isinstance(node.slice, ast.Constant) and isinstance(node.slice.value, int) \
+                and 0 <= node.slice.value < len(node.value.elts):
+            return node.value.elts[node.slice.value]
+        return node
+
+
+NEG_OP = {ast.Eq: ast.NotEq, ast.NotEq: ast.Eq, ast.Is: ast.IsNot, ast.IsNot: ast.Is, ast.In: ast.NotIn, ast.NotIn: ast.In,
+          ast.Lt: ast.GtE, ast.GtE: ast.Lt, ast.Gt: ast.LtE, ast.LtE: ast.Gt}
+
+
+def negate(test):
+    """negation normal form of a guard (one level): not X -> X, a op b -> a (neg op) b"""
+    if isinstance(test, ast.UnaryOp) and isinstance(test.op, ast.Not):
+        return test.operand
+    if isinstance(test, ast.Compare) and len(test.ops) == 1 and type(test.ops[0]) in NEG_OP:
+        return ast.Compare(left=test.left, ops=[NEG_OP[type(test.ops[0])]()], comparators=test.comparators)
+    return ast.UnaryOp(op=ast.Not(), operand=test)
+
+
+def stmt_terminates(stmts):
+    """the block never falls through: ends in return / raise / an if whose branches all do"""
+    if not stmts:
+        return False
+    st = stmts[-1]
+    if isinstance(st, (ast.Return, ast.Raise)):
+        return True
+    # (the `for result in self._sendError(...)` idiom also never falls through, but those are the sanity checks
+    #  of C06/C08 sprinkled over the handshake functions: their failure action is recorded on their own rows, and
+    #  making each of them a guard of everything that follows would tie every row to every unrelated check)
+    if isinstance(st, ast.If):
+        return stmt_terminates(st.body) and stmt_terminates(st.orelse)
+    return False
+
+
 class SiteWalker(object):
-    def __init__(self, fname, func, bindings=None):
+    def __init__(self, fname, func, bindings=None, aliases=None, early_exit=False):
+        # early_exit: a branch ending in return / raise guards what follows the `if` (used for the small
+        # verification helpers of keyexchange.py / x509.py / handshakehelpers.py, where `elif` after a return
+        # and `if` are interchangeable; not for the long handshake generators, whose argument checks would
+        # otherwise become guards of every row)
+        self.early_exit = early_exit
         self.rows = []
         self.fname = fname
         self.func = func
+        self.aliases = aliases or {}
         # name -> every binding of that local name seen so far in source order (assignments, loop
         # targets): argument provenance of the verification calls
         self.bindings = bindings if bindings is not None else {}
+
+    def txt(self, node, n=150):
+        """source text with single-assignment alias locals replaced by what they name"""
+        if self.aliases and node is not None:
+            import copy
+            node = ast.fix_missing_locations(_Subst(self.aliases).visit(copy.deepcopy(node)))
+        return short(node, n)
 
     def bind(self, target, text):
         names = []
@@ -364,7 +545,7 @@ class SiteWalker(object):
             if isinstance(t, ast.Name):
                 names.append(t.id)
         for n in names:
-            if n in NOISY_NAMES:
+            if n in NOISY_NAMES or n in self.aliases:
                 continue
             l = self.bindings.setdefault(n, [])
             if text not in l:
@@ -374,6 +555,9 @@ class SiteWalker(object):
         """which object every argument (and the receiver) of a verification call is: for each
         local name occurring in the call, all its bindings before this point"""
         names = []
+        if self.aliases:
+            import copy
+            call = _Subst(self.aliases).visit(copy.deepcopy(call))
         for n in ast.walk(call):
             if isinstance(n, ast.Name) and n.id not in NOISY_NAMES and n.id not in names:
                 names.append(n.id)
@@ -387,7 +571,7 @@ class SiteWalker(object):
         parts = []
         for n in names:
             if n in self.bindings:
-                parts.append('%s<-%s' % (n, ' | '.join(self.bindings[n])))
+                parts.append('%s<-%s' % (n, ' | '.join(sorted(self.bindings[n]))))      # a SET of possible bindings
         return (' {' + '; '.join(parts) + '}') if parts else ''
 
     def row(self, kind, text, guards, fail):
@@ -401,15 +585,15 @@ class SiteWalker(object):
                 f = n.func
                 nm = f.attr if isinstance(f, ast.Attribute) else f.id if isinstance(f, ast.Name) else None
                 if nm in VERIFY_CALLS:
-                    found.append((n.lineno, n.col_offset, 'check', short(n) + self.provenance(n)))
+                    found.append((n.lineno, n.col_offset, 'check', self.txt(n) + self.provenance(n)))
                 elif nm == 'create' and isinstance(f, ast.Attribute) and short(f.value, 60).endswith('session'):
-                    args = [short(a, 70) for a in n.args[3:6]]
-                    kw = [k.arg + '=' + short(k.value, 50) for k in n.keywords if k.arg == 'delegated_credential']
+                    args = [self.txt(a, 70) for a in n.args[3:6]]
+                    kw = [k.arg + '=' + self.txt(k.value, 50) for k in n.keywords if k.arg == 'delegated_credential']
                     found.append((n.lineno, n.col_offset, 'create', short(f.value, 40) + '.create(srp=%s, client=%s, server=%s%s)'
                                   % (tuple(args + ['?'] * (3 - len(args))) + ((', ' + kw[0]) if kw else '',))))
             elif isinstance(n, ast.Compare):
-                t = short(n)
-                if any(w in t for w in COMPARE_WORDS):
+                t = self.txt(n)
+                if any(w in t for w in COMPARE_WORDS) or any(w in short(n) for w in COMPARE_WORDS):
                     found.append((n.lineno, n.col_offset, 'compare', t))
         for f in sorted(found):
             self.row(f[2], f[3], guards, fail)
@@ -420,13 +604,23 @@ class SiteWalker(object):
                 continue
             if isinstance(s, ast.If):
                 self.events_in(s.test, guards, fail_action(s.body))
-                g = short(s.test, 90)
+                g = self.txt(s.test, 90)
+                ng = self.txt(negate(s.test), 96)
                 self.walk(s.body, guards + [g])
-                self.walk(s.orelse, guards + ['not(' + g + ')'])
+                self.walk(s.orelse, guards + [ng])
+                # a branch that never falls through guards everything after the `if` (early exit): the rest
+                # runs under the negated condition, whether it is written as `else:` / `elif` or not
+                extra, cur = [], (s if self.early_exit else None)
+                while cur is not None and stmt_terminates(cur.body):
+                    extra.append(self.txt(negate(cur.test), 96))
+                    cur = cur.orelse[0] if len(cur.orelse) == 1 and isinstance(cur.orelse[0], ast.If) else None
+                if self.early_exit and stmt_terminates(s.orelse) and not stmt_terminates(s.body):
+                    extra.append(g)
+                guards = guards + [x for x in extra if x not in guards]
             elif isinstance(s, (ast.For, ast.While)):
                 self.events_in(s.iter if isinstance(s, ast.For) else s.test, guards)
                 if isinstance(s, ast.For):
-                    self.bind(s.target, 'for ' + short(s.iter, 60))
+                    self.bind(s.target, 'for ' + self.txt(s.iter, 60))
                 # "for result in self._xxx(...): yield" is the generator-call idiom: no new guard
                 idiom = isinstance(s, ast.For) and isinstance(s.target, ast.Name) and s.target.id == 'result'
                 self.walk(s.body, guards if idiom else guards + ['loop ' + short(s.target if isinstance(s, ast.For) else s.test, 50)])
@@ -434,7 +628,7 @@ class SiteWalker(object):
             elif isinstance(s, ast.Try):
                 hs = ';'.join('%s->%s' % (short(h.type, 50) if h.type is not None else 'any', fail_action(h.body))
                               for h in s.handlers)
-                w = SiteWalker(self.fname, self.func, self.bindings)
+                w = SiteWalker(self.fname, self.func, self.bindings, self.aliases, self.early_exit)
                 w.walk(s.body, guards)
                 for r in w.rows:
                     self.rows.append(r[:5] + ((r[5] + '|except ' + hs) if r[2] in ('check', 'compare') else r[5],))
@@ -452,11 +646,11 @@ class SiteWalker(object):
                         flat += list(t.elts) if isinstance(t, ast.Tuple) else [t]
                     self.events_in(s.value, guards)
                     for t in targets:
-                        self.bind(t, short(s.value, 60))
+                        self.bind(t, self.txt(s.value, 60))
                     for t in flat:
                         nm = t.id if isinstance(t, ast.Name) else t.attr if isinstance(t, ast.Attribute) else None
                         if nm in IDENT_NAMES:
-                            self.row('assign', short(t, 60) + ' = ' + short(s.value, 90), guards, '-')
+                            self.row('assign', short(t, 60) + ' = ' + self.txt(s.value, 90), guards, '-')
                 else:
                     self.events_in(s, guards)
 
@@ -472,7 +666,8 @@ class SitesUnit(object):
                 if isinstance(n, ast.ClassDef):
                     for m in n.body:
                         if isinstance(m, ast.FunctionDef) and m.name not in SKIP_FUNCS:
-                            w = SiteWalker(os.path.basename(rel), n.name + '.' + m.name)
+                            w = SiteWalker(os.path.basename(rel), n.name + '.' + m.name, aliases=collect_aliases(m),
+                                           early_exit=os.path.basename(rel) not in ('tlsconnection.py', 'tlsrecordlayer.py'))
                             w.walk(m.body, [])
                             # keep functions that verify something or touch identity state
                             if any(r[2] in ('check', 'compare', 'create') for r in w.rows) or \
@@ -489,7 +684,135 @@ class SitesUnit(object):
         return '\n'.join(out)
 
 
+# =========================================================================================
+# DSA verification tail (range guard + verification equation) of Python_DSAKey.verify
+# =========================================================================================
+class DSATailUnit(object):
+    """Translates the statements of Python_DSAKey.verify from the first `if` that compares r / s with
+    self.q to the end of the function (the DER parsing before it is C15/C08's subject; r, s, digest
+    are inputs).  invMod / powMod are Section variables.  Fail-closed."""
+    ATTRS = {'q': 'q', 'p': 'p', 'g': 'g', 'public_key': 'y'}
+    CMP = {ast.Lt: '<?', ast.LtE: '<=?', ast.Gt: '>?', ast.GtE: '>=?', ast.Eq: '=?'}
+
+    def __init__(self, path):
+        self.path = path
+
+    def expr(self, e, env):
+        if isinstance(e, ast.Constant):
+            if isinstance(e.value, bool):
+                return ('true' if e.value else 'false'), 'bool'
+            if isinstance(e.value, int):
+                return (str(e.value) if e.value >= 0 else '(%d)' % e.value), 'Z'
+            raise Refuse('constant %r' % (e.value,))
+        if isinstance(e, ast.Name):
+            if e.id not in env:
+                raise Refuse('unbound name %s (line %d)' % (e.id, e.lineno))
+            return e.id, env[e.id]
+        if isinstance(e, ast.Attribute) and isinstance(e.value, ast.Name) and e.value.id == 'self':
+            if e.attr not in self.ATTRS:
+                raise Refuse('attribute self.%s' % e.attr)
+            return self.ATTRS[e.attr], 'Z'
+        if isinstance(e, ast.BinOp):
+            a, ta = self.expr(e.left, env)
+            b, tb = self.expr(e.right, env)
+            if ta != 'Z' or tb != 'Z':
+                raise Refuse('arithmetic on non-int (line %d)' % e.lineno)
+            op = {ast.Mult: '*', ast.Add: '+', ast.Sub: '-', ast.Mod: 'mod'}.get(type(e.op))
+            if op is None:
+                raise Refuse('operator %s' % type(e.op).__name__)
+            return '(%s %s %s)' % (a, op, b), 'Z'      # `mod`: moduli are the positive key parameters q, p
+        if isinstance(e, ast.Compare):
+            parts = []
+            left = e.left
+            for op, right in zip(e.ops, e.comparators):
+                a, ta = self.expr(left, env)
+                b, tb = self.expr(right, env)
+                if ta != 'Z' or tb != 'Z':
+                    raise Refuse('comparison of non-ints (line %d)' % e.lineno)
+                if isinstance(op, ast.NotEq):
+                    parts.append('(negb (%s =? %s))' % (a, b))
+                elif type(op) in self.CMP:
+                    parts.append('(%s %s %s)' % (a, self.CMP[type(op)], b))
+                else:
+                    raise Refuse('comparison operator')
+                left = right
+            return ('(' + ' && '.join(parts) + ')') if len(parts) > 1 else parts[0], 'bool'
+        if isinstance(e, ast.BoolOp):
+            vs = [self.expr(v, env) for v in e.values]
+            if any(t != 'bool' for _, t in vs):
+                raise Refuse('and/or on non-bool')
+            return '(' + (' && ' if isinstance(e.op, ast.And) else ' || ').join(c for c, _ in vs) + ')', 'bool'
+        if isinstance(e, ast.UnaryOp) and isinstance(e.op, ast.Not):
+            c, t = self.expr(e.operand, env)
+            if t != 'bool':
+                raise Refuse('not on non-bool')
+            return '(negb %s)' % c, 'bool'
+        if isinstance(e, ast.Call) and isinstance(e.func, ast.Name) and e.func.id in ('invMod', 'powMod') and not e.keywords:
+            args = [self.expr(a, env) for a in e.args]
+            if len(args) != (2 if e.func.id == 'invMod' else 3) or any(t != 'Z' for _, t in args):
+                raise Refuse('call shape of %s' % e.func.id)
+            return '(%s %s)' % (e.func.id, ' '.join(c for c, _ in args)), 'Z'
+        raise Refuse('expression %s (line %d)' % (type(e).__name__, getattr(e, 'lineno', 0)))
+
+    def block(self, stmts, env):
+        if not stmts:
+            raise Refuse('control reaches the end of verify without return')
+        st, rest = stmts[0], stmts[1:]
+        if isinstance(st, ast.Assign) and len(st.targets) == 1 and isinstance(st.targets[0], ast.Name):
+            c, t = self.expr(st.value, env)
+            env2 = dict(env)
+            env2[st.targets[0].id] = t
+            return 'let %s := %s in\n%s' % (st.targets[0].id, c, self.block(rest, env2))
+        if isinstance(st, ast.If):
+            c, t = self.expr(st.test, env)
+            if t != 'bool':
+                raise Refuse('if on non-bool')
+            return 'if %s then (\n%s\n) else (\n%s\n)' % (c, self.block(st.body + rest, env), self.block(st.orelse + rest, env))
+        if isinstance(st, ast.Return):
+            c, t = self.expr(st.value, env)
+            if t != 'bool':
+                raise Refuse('verify returns a non-bool (line %d)' % st.lineno)
+            return c
+        raise Refuse('statement %s (line %d)' % (type(st).__name__, st.lineno))
+
+    def translate(self):
+        with open(self.path) as f:
+            tree = ast.parse(f.read())
+        fd = None
+        for n in ast.walk(tree):
+            if isinstance(n, ast.ClassDef) and n.name == 'Python_DSAKey':
+                for m in n.body:
+                    if isinstance(m, ast.FunctionDef) and m.name == 'verify':
+                        fd = m
+        if fd is None:
+            raise Refuse('Python_DSAKey.verify not found')
+        start = None
+        for i, st in enumerate(fd.body):
+            if isinstance(st, ast.If):
+                src = ast.unparse(st.test)
+                names = {x.id for x in ast.walk(st.test) if isinstance(x, ast.Name)}
+                if 'self.q' in src and names & {'r', 's'}:
+                    start = i
+                    break
+        if start is None:
+            raise Refuse('no range check of r / s against self.q found in Python_DSAKey.verify')
+        # nothing between the DER parsing and the guard may rebind r / s except the mpz() conversions
+        from pylite import indent
+        body = self.block(fd.body[start:], {'r': 'Z', 's': 'Z', 'digest': 'Z'})
+        return '\n'.join([
+            '(* GENERATED by translator/units_c05.py from %s -- do not edit. *)' % self.path,
+            'From Coq Require Import ZArith Bool.', 'Open Scope Z_scope.', '',
+            'Section DSA.',
+            'Variable invMod : Z -> Z -> Z.',
+            'Variable powMod : Z -> Z -> Z -> Z.', '',
+            '(* tlslite/utils/python_dsakey.py:%d Python_DSAKey.verify, from the range check of (r, s) on;' % fd.body[start].lineno,
+            '   q p g y = self.q self.p self.g self.public_key; digest = the truncated hash as a number *)',
+            'Definition dsa_verify_tail (p q g y digest r s : Z) : bool :=\n%s.' % indent(body),
+            'End DSA.'])
+
+
 UNITS = {
+    'C05_DsaVerify': lambda: DSATailUnit(os.path.join(REPO, 'tlslite/utils/python_dsakey.py')),
     'C05_VerifyBytes': lambda: VBTranslator(os.path.join(REPO, 'tlslite/keyexchange.py')),
     'C05_Sites': lambda: SitesUnit(),
 }
